@@ -69,3 +69,12 @@ Ltac pyoks :=
     | |- context [py_list ?l] => rewrite (py_list_ok l) by ok_side
     end;
     pycbn)).
+
+(** a str as the list of its character codes (Coq strings: characters 0..255) *)
+From Coq Require Import Ascii NArith.
+Definition str_codes (s : string) : list N := map N_of_ascii (list_ascii_of_string s).
+Lemma ascii_code_eqb a c : (N_of_ascii a =? N_of_ascii c)%N = Ascii.eqb a c.
+Proof.
+  destruct (Ascii.eqb_spec a c) as [->|H]; [apply N.eqb_refl|].
+  apply N.eqb_neq. intro E. apply H. rewrite <- (ascii_N_embedding a), <- (ascii_N_embedding c). now rewrite E.
+Qed.
